@@ -111,6 +111,8 @@ class C03(Check):
 
     def execute(self, case):
         log = core.EventLog()
+        imgsim.fi()
+        imgsim.set_hash_salt(case.get('content') or case)
         m = imgsim.fi()
         data, info = F.build(case['content'])
         n = len(data)
